@@ -150,7 +150,7 @@ class C15Machine(Machine):
             exp['samples'][-1]['Beads ID'] = None
         return {'arm': 'run', 'exp': exp, 'plot': plot, 'hist': rng.chance(0.5), 'explicit_out': rng.chance(0.5),
                 'in_name': rng.choice(['experiment.xlsx', 'experiment.xlsx', 'plate.1.xlsx', 'my data v2.0.xlsx', 'a.b.c.xlsx', 'x.xlsx']),
-                'preexisting_dirs': rng.chance(0.4), 'rerun': rng.chance(0.3), 'relative_input': rng.chance(0.25),
+                'preexisting_dirs': rng.chance(0.4), 'rerun': rng.chance(0.3), 'relative_input': rng.wchoice([(False, 6), (True, 2), ('bare', 2)]),
                 'subdir': rng.chance(0.3), 'seed': rng.randint(0, 2 ** 31 - 1), 'dpi': rng.choice([20, 30, 60]),
                 'clock': rng.choice([rng.randint(946684800, 2082758399), 86400 * rng.randint(11000, 24000) - 1])}
 
@@ -366,7 +366,14 @@ class C15Machine(Machine):
             run_in = in_path
             run_out = out_path
             old_cwd = os.getcwd()
-            if case.get('relative_input') and case['arm'] == 'run':
+            if case.get('relative_input') == 'bare' and case['arm'] == 'run':
+                # the user sits in the folder and types a bare file name: `flowcal -i experiment.xlsx`
+                os.chdir(wdir)
+                run_in = os.path.basename(in_path)
+                if out_path:
+                    run_out = os.path.relpath(out_path, wdir)
+                out['probes']['bare_input_file_name'] = 1
+            elif case.get('relative_input') and case['arm'] == 'run':
                 # the user types a relative path: `flowcal -i work/experiment.xlsx` from the directory above
                 os.chdir(os.path.dirname(wdir))
                 run_in = os.path.join(os.path.basename(wdir), os.path.basename(in_path))
